@@ -522,6 +522,25 @@ def hostile_cases():
                 yield c
 
 
+HOSTILE_TARGETS = [
+    ('yaml', '!!python/object/apply:os.system ["touch @T/MARK"]'),
+    ('yml', 'a: !!python/object/apply:os.system ["touch @T/MARK"]'),
+    ('yaml', '!!python/object/new:os.system ["touch @T/MARK"]'),
+    ('python', "__import__('os').system('touch @T/MARK')"),
+    ('python', "{'a': open('@T/MARK', 'w')}"),
+    ('python', "[x for x in (open('@T/MARK', 'w'),)]"),
+]
+
+
+def hostile_target_cases():
+    """target texts that a safe loader must reject (usage error), never evaluate"""
+    for i, (fmt, text) in enumerate(HOSTILE_TARGETS):
+        for tv in ('argv', 'file', 'piped'):
+            c = assemble('a', text, 'argv', tv, fmt, None, False)
+            c['hostile'] = True
+            yield c
+
+
 def generate(rng, tier, scale, **focus):
     n = (700 if tier == 'quick' else 12000) * scale
     last = None
@@ -550,7 +569,7 @@ def exhaustive(tier):
 
 
 def corpus():
-    out = list(hostile_cases())
+    out = list(hostile_cases()) + list(hostile_target_cases())
     # the inputs that justify the hypotheses of c19_output (Props/C19.lean), on the real CLI
     out.append(assemble("'a'", '-', 'argv', 'argv', None, None, False))            # positional "-" is stdin
     out[-1]['stdin'] = '{"a": 1}'
